@@ -32,7 +32,7 @@ class C11(vlib.Check):
     gen_items = ["fprint_fold"]
     rule = ("all ordered pairs of bit fingerprints over lengths 1..4 (exhaustive: every subset pair x 5 operators x 3 forms) "
             "plus seeded pairs up to 2^32; count/float pairs with overlapping and disjoint supports; scalars 1..9; "
-            "batches of 1-6 with integer and dyadic weights; mismatched lengths for the rejection path. Non-trivial: both "
+            "batches of 1-6 with integer and dyadic weights, a third of them holding difference fingerprints with negative counts; mismatched lengths for the rejection path. Non-trivial: both "
             "operands non-empty and the operation succeeded; distinct by full case.")
     trusted_base = ["NumPy set routines (union1d, intersect1d, setdiff1d, setxor1d), compared on every run"]
     assumptions = ["float arithmetic is exact on the generated dyadic values (checked: results compared as exact rationals)"]
@@ -81,11 +81,31 @@ class C11(vlib.Check):
         for _ in range(n):
             a = gen_fp(rng, rng.choice(["count", "float"]), rng.choice([8, 1024, 2 ** 32]))
             self.count("scalar")
-            yield {"t": "scalar", "o": rng.choice(["mul", "div", "floordiv"]), "x": rng.randint(1, 9), "a": a}
+            oo = rng.choice(["mul", "div", "floordiv"])
+            yield {"t": "scalar", "o": oo, "x": rng.randint(1, 9), "a": a,
+                   # x * fp (reflected) exists for the commutative operator; every operator has an in-place form
+                   "form": rng.choice(["plain", "plain", "inplace"] + (["reflected"] if oo == "mul" else []))}
         for _ in range(n):
             bits = rng.choice([8, 64, 1024, 2 ** 32])
             k = rng.randint(1, 6)
             fps = [gen_fp(rng, rng.choice(["bit", "count", "count", "float"]), bits, level=5, maxn=8) for _ in range(k)]
+            if rng.random() < 0.3 and k >= 2:
+                # difference fingerprints (what `a - b` returns when b exceeds a at some positions): negative counts, and
+                # positions shared with other members so that partial sums pass through zero and below
+                shared = sorted({i for f in fps if f["kind"] != "bit" for i in f["idx"]})[:4]
+                for f in fps[:max(1, k // 2)]:
+                    if f["kind"] == "bit":
+                        continue
+                    cur = {i: Fraction(v) for i, v in f["cnt"]}
+                    for i in shared:
+                        cur.setdefault(i, Fraction(rng.choice([1, 2, 3])))
+                    for i in list(cur)[::2]:
+                        cur[i] = -cur[i]
+                    if f["kind"] == "count":
+                        cur = {i: Fraction(int(v)) for i, v in cur.items() if int(v) != 0}
+                    f["idx"] = sorted(cur)
+                    f["cnt"] = [[i, str(cur[i])] for i in sorted(cur)]
+                self.count("batch-with-negative-counts")
             w = None
             if rng.random() < 0.5:
                 w = [rng.choice(["1", "2", "3", "1/2", "1/4", "0", "5"]) for _ in range(k)]
@@ -121,8 +141,17 @@ class C11(vlib.Check):
             return {"res": r, "a_after": dump_fp(a), "b_after": dump_fp(b)}
         if t == "scalar":
             a = make_fp(case["a"])
-            f = {"mul": operator.mul, "div": operator.truediv, "floordiv": operator.floordiv}[case["o"]]
-            r = attempt(lambda: f(a, case["x"]), dump_fp)
+            form = case.get("form", "plain")
+            if form == "reflected":
+                r = attempt(lambda: case["x"] * a, dump_fp)
+            elif form == "inplace":
+                f = {"mul": operator.imul, "div": operator.itruediv, "floordiv": operator.ifloordiv}[case["o"]]
+                keep = a       # the object `a` was bound to must not change (other references to it remain valid)
+                r = attempt(lambda: f(a, case["x"]), dump_fp)
+                a = keep
+            else:
+                f = {"mul": operator.mul, "div": operator.truediv, "floordiv": operator.floordiv}[case["o"]]
+                r = attempt(lambda: f(a, case["x"]), dump_fp)
             return {"res": r, "a_after": dump_fp(a)}
         if t == "batch":
             fps = [make_fp(s) for s in case["fps"]]
@@ -244,6 +273,11 @@ class C11(vlib.Check):
             return None
 
     def compare(self, case, a_impl, a_model):
+        if case["t"] == "batch" and any(Fraction(v) < 0 for f in case["fps"] for _, v in f["cnt"]):
+            # negative counts lie outside the class invariant the fingerprint model covers (counts > 0): how a negative or
+            # cancelled position is *stored* is not modelled; the position-wise values are decided by the direct evaluation
+            self.count("negative-batch:property-only")
+            return None
         if case["t"] == "batch" or (case["t"] == "scalar" and case["o"] == "div"):
             # float arithmetic may round: compare values to 1e-12 relative, structure exactly
             ri, rm = a_impl["res"], a_model["res"]
